@@ -11,6 +11,7 @@ from vf.stdio_harness import run_stdio_script
 ID = "C06"
 LEVEL = "exploration"
 BACKENDS = ["pydantic", "fallback"]   # every case is executed under both validation backends
+LOGLEVELS = ["default", "debug"]   # every case also runs with the root logger at DEBUG (as --verbose does)
 SHARDS = {"quick": 4, "thorough": 16}
 BUDGET_S = {"quick": 90.0, "thorough": 600.0}
 TECHNIQUE = ("runtime monitoring: byte-level recorder on the child's stdin (scripted process; real child in thorough) + "
